@@ -319,6 +319,7 @@ class Inliner:
                 from .normalize import fold_tuple_locals
 
                 fold_tuple_locals(node)
+                split_parallel_assign(node)        # `a, b = site` with `site = (x, y)` folded in just now: one assignment per name
                 from .normalize import ssa_straightline
 
                 ssa_straightline(node)
